@@ -103,9 +103,26 @@ def gen_C06(rng, tier):
     return out
 def route_eq(case):
     t = case.split()
-    return runner.HARNESS_OF_CLASS.get(t[1] if t[0] == 'EQ' else t[0])
+    return runner.HARNESS_OF_CLASS.get(t[1] if t[0] in ('EQ', 'CV', 'EL') else t[0])
+
+def gen_C09(rng, tier):
+    n = 1200 if tier == 'quick' else 15000
+    kinds = ['none', 'int', 'str'] if tier == 'quick' else G.LABEL_KINDS_ALL
+    out = [G.cv_case(rng, rng.choice(['D', 'U']), rng.choice(kinds)) for _ in range(n)]
+    for _ in range(n):
+        cls = rng.choice(['D', 'U', 'DM', 'UM', 'DW', 'UW'])
+        out.append(G.el_case(rng, cls, rng.choice(kinds) if cls in ('D', 'U') else ('mult' if cls in ('DM', 'UM') else 'dbl')))
+    return out
 
 PROPS = {
+ 'C09': dict(harness=['classes', 'multi'], gen=gen_C09, route=route_eq, coq_term=G.coq_term_conv, coq_imports=MW_IMPORTS + ' ConvModel', shrink=None,
+             histogram=lambda cases: {'conversion_cases': sum(1 for c in cases if c.startswith('CV')), 'constructor_cases': sum(1 for c in cases if c.startswith('EL'))},
+             nontrivial=lambda c, I: ';' in c, model_name='reversed / to_directed / of_directed / of_edge_list models',
+             rule='(a) the graph built by a seeded history (directed or undirected, unlabelled / int / std::string labels, sizes 0-4 incl. isolated and zero vertices, self-loops): '
+                  'getReversedGraph (all observers), reverse twice == original, undirected-from-directed (all observers), getDirectedGraph (all observers), undirected->directed->undirected '
+                  '== original; (b) explicit edge lists (duplicates, both orientations, loops, index gaps, empty) given to the constructors of all eight classes through vector, list, deque, '
+                  'forward_list (and set for unlabelled): all observers of the result, and agreement between containers; compared with the Coq model and the spec images; '
+                  'non-trivial = case with at least two operations / edges'),
  'C06': dict(harness=['classes', 'multi'], gen=gen_C06, route=route_eq, coq_term=G.coq_term_eq, coq_imports=MW_IMPORTS, shrink=None,
              histogram=lambda cases: {'equal_verdicts': 0},
              nontrivial=lambda c, I: any(l.startswith('I ') for l in I) and ';' in c, model_name='DirectedModel.graph_eqb (operator==) on the final states of two histories',
